@@ -378,7 +378,7 @@ fn clip(s: &str) -> String {
 
 // ---------------------------------------------------------------- size extremes
 
-pub const SIZE_FLOORS: &[&str] = &["size:blkw_ffff", "size:long_string", "size:distance_8000", "size:over_64k_statements", "size:literal_offset_far_line"];
+pub const SIZE_FLOORS: &[&str] = &["size:blkw_ffff", "size:long_string", "size:distance_8000", "size:over_64k_statements", "size:literal_offset_far_line", "size:many_comment_lines", "size:many_blank_lines", "size:long_line"];
 
 pub fn size_cases() -> Vec<(String, String)> {
     let mut v: Vec<(String, String)> = Vec::new();
@@ -427,6 +427,17 @@ pub fn size_cases() -> Vec<(String, String)> {
             ));
         }
     }
+    // long runs of lines that produce no token for the parser (anything that handles them by
+    // recursion instead of iteration runs out of stack), and single lines of extreme length
+    v.push(("size:many_comment_lines lf".into(), "; c\n".repeat(200_000) + "halt\n"));
+    v.push(("size:many_comment_lines crlf".into(), "; c\r\n".repeat(120_000) + "halt\r\n"));
+    v.push(("size:many_comment_lines only".into(), "; nothing else\n".repeat(100_000)));
+    v.push(("size:many_comment_lines then truncated".into(), ";\n".repeat(150_000) + "add r0 r0"));
+    v.push(("size:many_comment_lines between".into(), "ld r0 t\n".to_string() + &";x\n".repeat(150_000) + "t .fill x1\n"));
+    v.push(("size:many_blank_lines".into(), "\n".repeat(300_000) + "halt\n" + &" \t\n".repeat(100_000)));
+    v.push(("size:long_line comment".into(), format!(";{}\nhalt\n", "x".repeat(2_000_000))));
+    v.push(("size:long_line blanks".into(), format!("add{}r0,r0,#1\nhalt\n", " ".repeat(1_000_000))));
+    v.push(("size:long_line commas".into(), format!("add r0{}r0,#1\nhalt\n", ",".repeat(500_000))));
     v.push(("size:over_64k_statements fills".into(), ".fill x1\n".repeat(66_000) + "end_ halt\nbr end_\n"));
     v.push(("size:blkw_ffff then label".into(), ".blkw xFFFF\n.blkw x2\nz halt\nbr z\n".into()));
     v
